@@ -5,9 +5,9 @@ HARNESSES = [
     H("c17_posix_parse_seeded_2", 20, timeout=1500, note="grammar-aware: one of 4 valid POSIX TZ strings (15 bytes each, covering unquoted/quoted abbreviations, explicit DST offsets, J/n/M rule dates, times beyond 24h), truncated at every position, followed by up to 2 arbitrary bytes"),
     H("c17_posix_parse_seeded_2_witness", 20, expect="witness", timeout=1500),
     H("c17_parse_i64_6", 8, timeout=600, note="util::parse::i64 on every byte string of length <= 6: Ok iff all ASCII digits (value = decimal value), Err otherwise"),
-    H("c17_posix_parse_6", 8, tier="thorough", timeout=6000, mem_gb=20),
-    H("c17_posix_parse_9", 11, tier="thorough", timeout=12000, mem_gb=24),
-    H("c17_parse_i64_20", 22, tier="thorough", timeout=6000, mem_gb=20),
+    H("c17_posix_parse_6", 8, tier="deep", timeout=6000, mem_gb=20),
+    H("c17_posix_parse_9", 11, tier="deep", timeout=12000, mem_gb=24),
+    H("c17_parse_i64_20", 22, tier="deep", timeout=6000, mem_gb=20),
 ]
 ASSUMPTIONS = [
     "inputs longer than the stated byte bound are outside the claim (this includes every valid RFC 2822 string and most valid datetimes)",
